@@ -22,7 +22,7 @@ import (
 )
 
 func init() {
-	register(&Prop{ID: "C09", Gen: genC09, Run: runC09, Timeout: 600 * time.Second})
+	register(&Prop{ID: "C09", Gen: genC09, Run: runC09, Timeout: 180 * time.Second})
 }
 
 type c09Key struct {
@@ -78,6 +78,7 @@ type c09Recv struct {
 	mu   sync.Mutex
 	recs map[c09Key]*c09Rec
 	wg   sync.WaitGroup
+	down chan struct{} // closed once the muxer has shut down completely
 }
 
 type c09Rec struct {
@@ -88,7 +89,7 @@ type c09Rec struct {
 }
 
 func newC09Recv(conn *g4Conn, mode int, regs []c09Key) *c09Recv {
-	r := &c09Recv{m: muxer.New(conn), recs: map[c09Key]*c09Rec{}}
+	r := &c09Recv{m: muxer.New(conn), recs: map[c09Key]*c09Rec{}, down: make(chan struct{})}
 	for _, k := range regs {
 		r.register(k)
 	}
@@ -128,10 +129,34 @@ func (r *c09Recv) register(k c09Key) {
 		if recvCh == nil {
 			return // muxer already shut down
 		}
-		for seg := range recvCh {
+		record := func(seg *muxer.Segment) {
 			r.mu.Lock()
 			rec.fps = append(rec.fps, fpBytes(seg.Payload))
 			r.mu.Unlock()
+		}
+		for {
+			select {
+			case seg, ok := <-recvCh:
+				if !ok {
+					return
+				}
+				record(seg)
+			case <-r.down:
+				// The muxer is gone and will never send or close again. A channel it left open
+				// (not expected: the read loop closes every registered receiver) must not hang
+				// the run: take what is buffered and stop.
+				for {
+					select {
+					case seg, ok := <-recvCh:
+						if !ok {
+							return
+						}
+						record(seg)
+					default:
+						return
+					}
+				}
+			}
 		}
 	}()
 }
@@ -156,6 +181,7 @@ func (r *c09Recv) finish() string {
 		}
 	}
 	// receivers unregistered at run time were closed then; the rest by the read loop's exit
+	close(r.down)
 	r.wg.Wait()
 	recs := []*c09Rec{}
 	for _, rec := range r.recs {
